@@ -8,23 +8,17 @@ import (
 	"unsafe"
 )
 
-// defaultHasher creates a fast hash function for the given comparable type.
-// The only limitation is that the type should not contain interfaces inside
+// defaultHasher creates a fast hash function for the given comparable type,
 // based on runtime.typehash.
 func defaultHasher[T comparable]() func(T, uint64) uint64 {
 	var zero T
-
-	if reflect.TypeOf(&zero).Elem().Kind() == reflect.Interface {
-		return func(value T, seed uint64) uint64 {
-			iValue := any(value)
-			i := (*iface)(unsafe.Pointer(&iValue))
-			return runtime_typehash64(i.typ, i.word, seed)
-		}
-	} else {
-		var iZero any = zero
-		i := (*iface)(unsafe.Pointer(&iZero))
-		return func(value T, seed uint64) uint64 {
-			return runtime_typehash64(i.typ, unsafe.Pointer(&value), seed)
-		}
+	// Type descriptor of T itself. When T is an interface type this is the
+	// interface type's descriptor, so runtime.typehash hashes the value the
+	// way the builtin map does: nil interfaces, pointer-shaped dynamic values
+	// and unhashable dynamic types are all handled by the runtime.
+	rtyp := reflect.TypeOf(&zero).Elem()
+	typ := uintptr((*iface)(unsafe.Pointer(&rtyp)).word)
+	return func(value T, seed uint64) uint64 {
+		return runtime_typehash64(typ, unsafe.Pointer(&value), seed)
 	}
 }
